@@ -51,7 +51,11 @@ def unresolvable(doc):
     bad = []
     for cont in [doc] + list(doc.bundles):
         for q, role in names_of_scope(cont):
-            s = str(q)
+            # the print form is written down here, not asked of the library: prefix, colon, local part (the bare local part in a
+            # default namespace). A library whose str() says anything else is not excused by this classification.
+            s = (q.namespace.prefix + ":" + q.localpart) if q.namespace.prefix else q.localpart
+            if str(q) != s:
+                return []
             back = cont.valid_qualified_name(s) if s else None
             if back is None or back.uri != q.uri:
                 bad.append((role, s, q.uri, back.uri if back is not None else None))
@@ -61,7 +65,7 @@ def unresolvable(doc):
 def make_case(ctx, g):
     w = World()
     fails = []
-    b = DocBuilder(g, w, malformed=0.0, repeat_id=0.25, refused=0.15, reinstant=0.15)
+    b = DocBuilder(g, w, malformed=0.0, repeat_id=0.25, refused=0.15, reinstant=0.15, builtin_names=0.05)
     d, scopes = b.random_document(n_records=g.rng.randint(1, 8))
     doc = w.conts[d]
     flags = set()
